@@ -97,7 +97,7 @@ CHECKS["C17"] = {
         {"pkg": ".", "run": "^TestVerif_C17_", Q: {"timeout": 600}, T: {"timeout": 3000, "shards": 8}},
     ],
     "mandatory_labels": {"all": ["open-group", "pure/period-boundary", "pure/key-longer-than-block", "hist/observed-across-deadline", "hist/registered-in-earlier-period", "hist/cross-accept",
-                                 "hist/own-previous-in-grace", "hist/foreign", "static", "marshaler/across-deadline", "marshaler/exchange"]},
+                                 "hist/own-previous-in-grace", "hist/foreign", "static", "marshaler/across-deadline", "marshaler/exchange", "marshaler/own-previous-in-grace"]},
 }
 
 _SS = "pkg/secretstore"
@@ -443,6 +443,7 @@ for _k, _v in _ADDED5.items():
         CHECKS[_k]["level_text"] += " " + _v
 _ADDED6 = {
     "C01": "Single transient datastore write or read failures during opens (an honest message refused for good because of one is a violation).",
+    "C02": "Every third message of a sender has no content at all.",
     "C03": "Forged entries also arrive by replication from a branch concurrent with the victim's history (a replica that merged nothing, Lamport time 1).",
     "C04": "Controlled schedules (DFS + rapid) of overlapping index passes of the writer's task and the replication task over a log that grows meanwhile (instrumented index; the final state must be the state of the entries held).",
     "C05": "Single transient datastore write or read failures while an announcement is registered, also a re-delivered one (an announced key must be usable). Distribution half: one device may deactivate the group after its activation and activate it again at the end (others join meanwhile).",
@@ -457,6 +458,7 @@ _ADDED6 = {
     "C14": "Service layer: the stand-alone push service created on the account's root datastore (its default secret store next to the application's), pushes of one sender opened through the service, through the application's store or arriving through the log with generated distances between counters (reply fields and AlreadyReceived flag checked).",
     "C15": "Priority counters over the whole uint64 range (the counter comes from the sender's header); bursts of 20-300 parked items followed by partial drains in both sequential machines.",
     "C16": "The controlled scheduler models sync.RWMutex writer preference (readers arriving after a waiting writer wait behind it); the peer cache scenarios add readers (GetPeersForTopics / GetPeers) next to updater and waiters. Tracker scenarios with two waiters of one group: the list handed to a waiter must read the same after other tasks ran.",
+    "C17": "Marshaler histories also present a peer with a heads message it marshalled itself in the period before its last rotation (accepted during the grace period).",
     "C18": "Round trips also read every frame of a type into the same destination object (the usual receive loop), with frames of length zero after longer ones.",
     "C19": "Odd groups (validly signed invitations with secrets of unusual length) joined and then used by the other requests.",
     "C20": "An older backup refused into an existing account followed by the current export.",
